@@ -102,6 +102,7 @@ package treeset
 //@   ensures [C13] forall x like keylike(set) :: Mem(result, x) <==> Mem(set, x) && Mem(another, x)
 //@   focus loop1:inv-keep:3* : pre:*, loop1:inv:*, Set.Add#*:single, Set.Contains#*, Iterator.Next#*, Iterator.Value#*, lemma:backedge-1#*
 //@   focus loop2:inv-keep:3* : pre:*, loop2:inv:*, Set.Add#*:single, Set.Contains#*, Iterator.Next#*, Iterator.Value#*, lemma:backedge-2#*
+//@   focus post:2* : pre:*, loop1:inv:*, loop2:inv:*, Iterator.Next#*, Set.Size#*
 //@   loop 1:
 //@     invariant ItInv(it) && fresh(it) && fresh(it.iterator) && it.tree == set.tree && Inv(result) && fresh(result) && fresh(result.tree) && result.tree.Comparator == set.tree.Comparator
 //@     invariant forall x like set.tree.Root :: fresh(x) ==> x.tr == result.tree || x.tr == nil
@@ -128,6 +129,7 @@ package treeset
 //@   ensures [C13] forall x like keylike(set) :: Mem(result, x) <==> Mem(set, x) || Mem(another, x)
 //@   focus loop1:inv-keep:3* : pre:*, loop1:inv:*, Set.Add#*:single, Set.Contains#*, Iterator.Next#*, Iterator.Value#*, lemma:backedge-1#*
 //@   focus loop2:inv-keep:3* : pre:*, loop2:inv:*, Set.Add#*:single, Set.Contains#*, Iterator.Next#*, Iterator.Value#*, lemma:backedge-2#*
+//@   focus post:2* : pre:*, loop1:inv:*, loop2:inv:*, Iterator.Next#*, Set.Size#*
 //@   loop 1:
 //@     invariant ItInv(it) && fresh(it) && fresh(it.iterator) && it.tree == set.tree && Inv(result) && fresh(result) && fresh(result.tree) && result.tree.Comparator == set.tree.Comparator
 //@     invariant forall x like set.tree.Root :: fresh(x) ==> x.tr == result.tree || x.tr == nil
@@ -150,6 +152,7 @@ package treeset
 //@   ensures [C13] forall x like keylike(set) :: Mem(result, x) <==> Mem(set, x) && !Mem(another, x)
 //@   focus loop1:inv-keep:3* : pre:*, loop1:inv:*, Set.Add#*:single, Set.Contains#*, Iterator.Next#*, Iterator.Value#*, lemma:backedge-1#*
 //@   focus loop2:inv-keep:3* : pre:*, loop2:inv:*, Set.Add#*:single, Set.Contains#*, Iterator.Next#*, Iterator.Value#*, lemma:backedge-2#*
+//@   focus post:2* : pre:*, loop1:inv:*, loop2:inv:*, Iterator.Next#*, Set.Size#*
 //@   loop 1:
 //@     invariant ItInv(it) && fresh(it) && fresh(it.iterator) && it.tree == set.tree && Inv(result) && fresh(result) && fresh(result.tree) && result.tree.Comparator == set.tree.Comparator
 //@     invariant forall x like set.tree.Root :: fresh(x) ==> x.tr == result.tree || x.tr == nil
